@@ -8,6 +8,10 @@ use crate::scen::Spec;
 use std::collections::HashSet;
 
 /// Section names real programs look up (present in some images, absent in most).
+/// Names a caller may pass that are not plain ASCII: the Unicode replacement character (what
+/// a lossy decode of a damaged name produces), a multi-byte character, an embedded NUL.
+pub const ODD_NAMES: [&str; 4] = [".te\u{fffd}t", "\u{fffd}", ".d\u{e9}bug", ".a\0b"];
+
 pub const COMMON_NAMES: [&str; 10] = [
     ".debug_info",
     ".debug_abbrev",
@@ -376,6 +380,8 @@ pub fn gen_ops(
                         long.push('x');
                     }
                     long
+                } else if rng.chance(1, 16) {
+                    (*rng.pick(&ODD_NAMES)).to_string()
                 } else if rng.chance(1, 5) {
                     (*rng.pick(&COMMON_NAMES)).to_string()
                 } else if names.is_empty() || rng.chance(1, 4) {
@@ -495,6 +501,9 @@ pub fn full_query_set(bytes: &[u8], m: &Model, slice_extras: bool) -> Vec<OpRec>
             long.push('x');
         }
         ops.push(Op::ByName(long));
+    }
+    for n in ODD_NAMES.iter() {
+        ops.push(Op::ByName((*n).to_string()));
     }
     // names real programs ask for, whether or not this file has them
     for n in COMMON_NAMES.iter() {
